@@ -30,6 +30,8 @@ def ref_dataset_specs(draw, max_levels=3, max_leaves=7, min_levels=1, min_leaves
         'enc': draw(st.sampled_from(['csr', 'csc', 'dense'])),
         'shuffle': draw(st.booleans()),
         'family': draw(st.sampled_from(['generic', 'generic', 'nested'])),
+        'obs_index_name': draw(st.sampled_from([None, None, None, 'cell_label'])),
+        'var_index_name': draw(st.sampled_from([None, None, None, 'gene_identifier'])),
     }
 
 
@@ -71,7 +73,8 @@ def write_ref_h5ad(path, rs):
     X, rows, genes, cells, _ = expand_ref_dataset(rs)
     h = rs['tree']['hierarchy']
     obs_cols = {lv: [r[lv] for r in rows] for lv in h}
-    materialize.write_h5ad(path, X, cells, genes, enc=rs.get('enc', 'csr'), obs_cols=obs_cols)
+    materialize.write_h5ad(path, X, cells, genes, enc=rs.get('enc', 'csr'), obs_cols=obs_cols,
+                           obs_index_name=rs.get('obs_index_name'), var_index_name=rs.get('var_index_name'))
     return path
 
 
